@@ -443,9 +443,16 @@ PPL::Grid::relation_with(const Congruence& cg) const {
 
   bool known_to_intersect = false;
 
+  // The reasoning below assumes that the points are seen before the
+  // parameters and lines (a parameter not satisfying `cg' that came
+  // before the first point was forgotten): scan the system twice.
+  for (int pass = 0; pass < 2; ++pass)
   for (Grid_Generator_System::const_iterator i = gen_sys.begin(),
          i_end = gen_sys.end(); i != i_end; ++i) {
     const Grid_Generator& g = *i;
+    if (g.is_point() != (pass == 0)) {
+      continue;
+    }
     Scalar_Products::assign(sp, cg, g);
 
     switch (g.type()) {
